@@ -174,9 +174,133 @@ type guard struct {
 	lit  int64
 }
 
+// canonical text of a guarded expression, insensitive to the names a function gives its parameters and
+// single-assignment locals: parameters print as $0, $1, ... (the receiver as $r) and a local variable that is
+// assigned exactly once prints as its defining expression (so `length` in Parse prints as
+// int(binary.BigEndian.Uint16($0[2:4]))); everything else prints as written
+type canon struct {
+	params map[string]string
+	defs   map[string]ast.Expr
+}
+
+func newCanon(fn *ast.FuncDecl) *canon {
+	c := &canon{params: map[string]string{}, defs: map[string]ast.Expr{}}
+	if fn.Recv != nil {
+		for _, f := range fn.Recv.List {
+			for _, n := range f.Names {
+				c.params[n.Name] = "$r"
+			}
+		}
+	}
+	i := 0
+	for _, f := range fn.Type.Params.List {
+		for _, n := range f.Names {
+			c.params[n.Name] = fmt.Sprintf("$%d", i)
+			i++
+		}
+		if len(f.Names) == 0 {
+			i++
+		}
+	}
+	count := map[string]int{}
+	cand := map[string]ast.Expr{}
+	bump := func(e ast.Expr) {
+		if id, ok := e.(*ast.Ident); ok {
+			count[id.Name]++
+		}
+	}
+	ast.Inspect(fn.Body, func(n ast.Node) bool {
+		switch s := n.(type) {
+		case *ast.AssignStmt:
+			for i, l := range s.Lhs {
+				bump(l)
+				if id, ok := l.(*ast.Ident); ok && s.Tok == token.DEFINE && len(s.Lhs) == len(s.Rhs) {
+					cand[id.Name] = s.Rhs[i]
+				}
+			}
+		case *ast.IncDecStmt:
+			bump(s.X)
+			bump(s.X)
+		case *ast.RangeStmt:
+			if s.Key != nil {
+				bump(s.Key)
+				bump(s.Key)
+			}
+			if s.Value != nil {
+				bump(s.Value)
+				bump(s.Value)
+			}
+		case *ast.ValueSpec:
+			for i, nm := range s.Names {
+				count[nm.Name]++
+				if i < len(s.Values) {
+					cand[nm.Name] = s.Values[i]
+				}
+			}
+		}
+		return true
+	})
+	for n, e := range cand {
+		if count[n] == 1 {
+			if _, isParam := c.params[n]; !isParam {
+				c.defs[n] = e
+			}
+		}
+	}
+	return c
+}
+
+func (c *canon) str(e ast.Expr, depth int) string {
+	switch x := e.(type) {
+	case *ast.Ident:
+		if p, ok := c.params[x.Name]; ok {
+			return p
+		}
+		if d, ok := c.defs[x.Name]; ok && depth < 4 {
+			return c.str(d, depth+1)
+		}
+		return x.Name
+	case *ast.BasicLit:
+		return x.Value
+	case *ast.ParenExpr:
+		return "(" + c.str(x.X, depth) + ")"
+	case *ast.SelectorExpr:
+		return c.str(x.X, depth) + "." + x.Sel.Name
+	case *ast.StarExpr:
+		return "*" + c.str(x.X, depth)
+	case *ast.UnaryExpr:
+		return x.Op.String() + c.str(x.X, depth)
+	case *ast.BinaryExpr:
+		return c.str(x.X, depth) + " " + x.Op.String() + " " + c.str(x.Y, depth)
+	case *ast.IndexExpr:
+		return c.str(x.X, depth) + "[" + c.str(x.Index, depth) + "]"
+	case *ast.SliceExpr:
+		p := func(e ast.Expr) string {
+			if e == nil {
+				return ""
+			}
+			return c.str(e, depth)
+		}
+		s := c.str(x.X, depth) + "[" + p(x.Low) + ":" + p(x.High)
+		if x.Slice3 {
+			s += ":" + p(x.Max)
+		}
+		return s + "]"
+	case *ast.CallExpr:
+		var as []string
+		for _, a := range x.Args {
+			as = append(as, c.str(a, depth))
+		}
+		return c.str(x.Fun, depth) + "(" + strings.Join(as, ", ") + ")"
+	}
+	return exprString(e)
+}
+
 // guards lists, in source order, every comparison of an expression with an
 // integer constant inside fn.
 func (pi *pkgInfo) guards(fn *ast.FuncDecl) []guard {
+	cn := newCanon(fn)
+	exprString := func(e ast.Expr) string { return cn.str(e, 0) }
 	var gs []guard
 	ast.Inspect(fn.Body, func(n ast.Node) bool {
 		be, ok := n.(*ast.BinaryExpr)
